@@ -854,11 +854,24 @@ def canon_world(w):
             root.append(cv(f))
     for a in range(w.naddr):
         c = w.conn(a)
-        root.append(None if c is None else (cv(c.proto), cv(c.transport), c.phase, c.window))
+        root.append(None if c is None else (cv(c.proto), cv(c.transport), c.phase, c.window, c.timeout, c.clean,
+                                            c.keepalive, c.level, c.close_req, c.lost, c.pending_loss, c.n_connects,
+                                            c.disc_written, c.nwrites > 0))
     calls = sorted(w.pending_calls(), key=lambda c: c.getTime())    # stable: ties keep insertion order
     root.append(tuple(cv(c) for c in calls))
     root.append(w.jitter)
     return tuple(root)
+
+
+def _last(w, cs):
+    """(seconds since the last copy, jitter in force then, seconds between the last two copies) -- what timing
+    monitors remember about a packet's transmissions."""
+    if not cs:
+        return None
+    now = w.clock.rightNow
+    a = cs[-1]
+    gap = round(a[5] - cs[-2][5], 6) if len(cs) > 1 and cs[-2][1] == a[1] else None
+    return (round(now - a[5], 6), a[6], gap, cs[-2][6] if len(cs) > 1 else None)
 
 
 def reqkey(w):
@@ -872,5 +885,6 @@ def reqkey(w):
         out.append((r.idx, r.kind, r.addr, r.qos, r.ret, r.msgId, f, len(r.fires),
                     len(r.tx), sum(1 for t in r.tx if t[1] == curc), len(r.rel_tx),
                     sum(1 for t in r.rel_tx if t[1] == curc),
-                    tuple(sorted(set(a[1] for a in r.acks))), r.conn == curc, w.session_alive(r)))
+                    tuple(sorted(set(a[1] for a in r.acks))), r.conn == curc, w.session_alive(r),
+                    _last(w, r.tx), _last(w, r.rel_tx)))
     return tuple(out)
